@@ -42,7 +42,7 @@ from functools import wraps
 from importlib import import_module
 from typing import List, Tuple, Any, Callable, Dict, Optional
 
-from numpy import random
+import random
 
 from pydcop.algorithms import ComputationDef, load_algorithm_module
 from pydcop.dcop.objects import Variable
